@@ -1,4 +1,4 @@
 From Coq Require Import Extraction ExtrOcamlBasic.
-From TK Require Import QuadTree_Model QuadTree_Spec QuadTree_SpecExec.
+From TK Require Import QuadTree_Model QuadTree_Spec QuadTree_SpecExec QuadTree_SpecExec2.
 Extraction "c18_model.ml" init insert fill_order forces forces_cells all_indices is_correct depth ncells
-           spec_okb struct_okb recom coms cum_consistent auto_root.
+           spec_okb struct_okb recom coms cum_consistent auto_root forces_subtrees.
